@@ -46,6 +46,20 @@ def state_names(clo):
     return sorted(names & assigned)
 
 
+def container_names(q, clo):
+    """closure variables a handler uses without assigning them and that hold a container (a list / deque / dict mutated in place)"""
+    import ast
+    if not isinstance(clo, Closure) or isinstance(clo.node, ast.Lambda):
+        return []
+    mine = {a.arg for a in clo.node.args.args} | {n.id for n in ast.walk(clo.node) if isinstance(n, ast.Name) and isinstance(n.ctx, ast.Store)}
+    out = []
+    for nme in sorted({n.id for n in ast.walk(clo.node) if isinstance(n, ast.Name) and isinstance(n.ctx, ast.Load)} - mine):
+        cid = clo.scope.lookup(nme)
+        if cid is not None and cid in q.cells and isinstance(q.cells[cid], Ref):
+            out.append(nme)
+    return out
+
+
 def resolve_cell(q, clo, name, role=None):
     """binding of a contract's state variable to the handler's closure variable: by name if it exists, else by role (the only state
     variable, or the only one whose initial value satisfies `role`); unresolved -> the function is undecided, never violated"""
@@ -54,6 +68,7 @@ def resolve_cell(q, clo, name, role=None):
         return cid
     cands = state_names(clo)
     if role is not None:
+        cands = sorted(set(cands) | set(container_names(q, clo)))
         cands = [n for n in cands if role(q.cells.get(clo.scope.lookup(n)))]
     if len(cands) == 1:
         return clo.scope.lookup(cands[0])
@@ -230,21 +245,36 @@ class TeePlain(FnCase):
         h = d[self.handler]
         fn_ = h.fn if isinstance(h, Partial) else h
         self.index_ok = isinstance(h, Partial) and h.args == [self.branch]
-        self.queue = get_cell(q, fn_, 'queue'); self.has = get_cell(q, fn_, 'has_next'); self.done = get_cell(q, fn_, 'is_done')
-        self.q0 = [Const(f'q{t}', Val) for t in range(self.n)]; self.h0 = [Bool(f'h{t}') for t in range(self.n)]; self.d0 = [Bool(f'd{t}') for t in range(self.n)]
+        def all_are(v, x):
+            return isinstance(v, Ref) and q.heap[v.oid][0] == 'list' and len(q.heap[v.oid][1]) == self.n and all(e is x for e in q.heap[v.oid][1])
+        if self.handler == 'on_completed':
+            # the stream completes when ALL branches have completed: the other branches' completion handlers run first (from the state the real
+            # subscription left), then this branch's; nothing may be completed before the last one (no look at how the flags are kept)
+            q.trace = T0; q.calls = []; q.pc = []
+            for (o_, d_) in subs:
+                if o_ is srcs[self.branch] or 'on_completed' not in d_: continue
+                (q, _), = eng.call(q, d_['on_completed'], [], {})
+            self.trace_before_last = q.trace
+            self.path = q
+            return h, [], {}
+        on_next_fn = fn_
+        self.queue = get_cell(q, on_next_fn, 'queue', role=lambda v: all_are(v, None))
+        self.has = get_cell(q, on_next_fn, 'has_next', role=lambda v: all_are(v, False))
+        self.q0 = [Const(f'q{t}', Val) for t in range(self.n)]; self.h0 = [Bool(f'h{t}') for t in range(self.n)]
         q.heap[self.queue.oid] = ('list', tuple(SVal(t) for t in self.q0))
         q.heap[self.has.oid] = ('list', tuple(SBool(t) for t in self.h0))
-        q.heap[self.done.oid] = ('list', tuple(SBool(t) for t in self.d0))
         q.trace = T0; q.calls = []; q.pc = []
         self.path = q
         return h, ([SVal(X_)] if self.handler == 'on_next' else []), {}
 
     def ensures(self, q, ret):
         eng = self.eng; n, b = self.n, self.branch
+        out = [('wiring', BoolVal(self.kind_ok and self.order_ok and self.index_ok))]
+        if self.handler == 'on_completed':
+            return out + [('nothing_completed_before_the_last_branch', self.trace_before_last == T0),
+                          ('completes_when_all_branches_done', q.trace == Concat(T0, Unit(em(OUT, Ev.Done))))]
         qv = [eng.to_val(q, v) for v in q.heap[self.queue.oid][1]]
         hv = [eng.as_z3_bool(eng.truth(q, v)) for v in q.heap[self.has.oid][1]]
-        dv = [eng.as_z3_bool(eng.truth(q, v)) for v in q.heap[self.done.oid][1]]
-        out = [('wiring', BoolVal(self.kind_ok and self.order_ok and self.index_ok))]
         if self.handler == 'on_next':
             cell = lambda t: X_ if t == b else self.q0[t]
             has = lambda t: BoolVal(True) if t == b else self.h0[t]
@@ -257,10 +287,6 @@ class TeePlain(FnCase):
                         ('cells', And(*[And(qv[t] == cell(t), hv[t] == If(full, BoolVal(False), has(t))) for t in range(n)]))]
             else:
                 out += [('emits', q.trace == Concat(T0, ev)), ('cells', And(*[And(qv[t] == cell(t), hv[t] == has(t)) for t in range(n)]))]
-        else:
-            alld = And(*[(BoolVal(True) if t == b else self.d0[t]) for t in range(n)])
-            out += [('completes_when_all_branches_done', q.trace == If(alld, Concat(T0, Unit(em(OUT, Ev.Done))), T0)),
-                    ('done_flags', And(*[dv[t] == (BoolVal(True) if t == b else self.d0[t]) for t in range(n)]))]
         return out
 
 
@@ -298,7 +324,16 @@ class ToDeque(FnCase):
         q = res[0][0]
         hs = [d for (o, d) in q.ghost['subs'] if o is src][0]
         h = hs[self.handler]
-        self.acc = get_cell(q, h, 'acc')
+        is_deque = lambda v: isinstance(v, Ref) and q.heap[v.oid][0] == 'deque'
+        self.acc = None
+        for clo_ in [h] + [x for x in hs.values() if isinstance(x, Closure) and x is not h]:
+            # the buffer, by role (the one deque of the subscription); a handler may reach it through a bound method only, so its siblings are asked too
+            try:
+                self.acc = get_cell(q, clo_, 'acc', role=is_deque); break
+            except Unsupported:
+                continue
+        if self.acc is None:
+            raise Unsupported('to_deque: cannot identify the buffer (a deque created per subscription)')
         q.heap[self.acc.oid] = ('deque', self.D0)
         q.trace = T0; q.calls = []; q.pc = []
         self.path = q
